@@ -107,3 +107,28 @@ VARIANTS += [
       "                    s[IDX_REPETITION], \"times\", 1, 200_000_000)]",
       "silent", "", "a wider reader range still covers the constructor"),
 ]
+
+VARIANTS += [
+    V("compact-writer-drops-multiplicity", I,
+      "                f\"{width}{INTERNAL_SEP}{height}\" if repetitions == "
+      "1 else",
+      "                f\"{width}{INTERNAL_SEP}{height}\" if repetitions != "
+      "1 else", "fire", "D19.2", "found by the mutation survey"),
+    V("compact-dimensions-swapped-at-constructor", I,
+      "        return Instance(name, bin_width, bin_height, items)",
+      "        return Instance(name, bin_height, bin_width, items)", "fire",
+      "D19.2"),
+    V("compact-rows-not-collected", I, "            items.append(row)\n", "",
+      "fire", "D19.2"),
+    V("compact-field-name-converted", I,
+      "            text[2], \"bin_width\", 1, 1_000_000_000_000)",
+      "            \"bin_width\", text[2], 1, 1_000_000_000_000)", "fire",
+      "D19.4"),
+    V("silent-compact-writer-other-polarity", I,
+      "                f\"{width}{INTERNAL_SEP}{height}\" if repetitions == "
+      "1 else\n                f\"{width}{INTERNAL_SEP}{height}"
+      "{INTERNAL_SEP}{repetitions}\")",
+      "                f\"{width}{INTERNAL_SEP}{height}{INTERNAL_SEP}"
+      "{repetitions}\" if repetitions != 1 else\n                f\"{width}"
+      "{INTERNAL_SEP}{height}\")", "silent", ""),
+]
